@@ -376,7 +376,9 @@ where
         // the per-sub numbers in the binaries are base counts; the quick tier runs 4x of them so
         // that a quick check is still a substantial fixed amount of work (0.5-5 s per property)
         let qf: u32 = std::env::var("VERIF_QUICK_FACTOR").ok().and_then(|v| v.parse().ok()).unwrap_or(4);
-        let cases = tier.pick(cases_quick.saturating_mul(qf), cases_thorough);
+        // likewise the thorough base counts are multiplied (default 4: 20-90 s per property on 16 cores)
+        let tf: u32 = std::env::var("VERIF_THOROUGH_FACTOR").ok().and_then(|v| v.parse().ok()).unwrap_or(4);
+        let cases = tier.pick(cases_quick.saturating_mul(qf), cases_thorough.saturating_mul(tf));
         let shards = if cases >= 4000 { 16 } else if cases >= 800 { 4 } else { 1 };
         let name2 = name.clone();
         let name3 = name.clone();
